@@ -5,6 +5,10 @@ V = os.path.dirname(os.path.dirname(os.path.abspath(__file__)))
 ALL = [f'C{i:02d}' for i in range(1, 20)]
 
 CLAIMED = {
+ 'C11': dict(
+   text="Lean 4 theorems: the look-ahead chunk reader emits, for every file length and every short-read schedule, chunks whose concatenation is the file, exactly the last one flagged 'no more', none empty, all within the maximum; the boss's chunk relay succeeds iff the stream is terminated and totals the listed size (any growth/shrink => error) and forwards exactly the consumed chunks with the time stamp on the last; the largest chunk fits the frame buffers (constants extracted from the source on every run). Tie: real GetFileContent / CreateOrUpdateFile on real files of every boundary length (chunk sequence = model, CRC per chunk, bytes+mtime read back) and the real sync() relaying scripted growing/shrinking sources.",
+   note="Trusted: Lean kernel; host read(2)/write(2) (regular files give full reads: short-read schedules are covered by the theorem only); extraction of the four chunk constants and the buffer size; differential tie bounded by the lengths listed in the evidence.",
+   technique="Lean 4 proof (functional induction over the reader, induction over the chunk stream) + L3/L2 correspondence", design="§3 C11"),
  'C13': dict(
    text="Lean 4 theorems over the planner model (closed form as inductive invariant of the arrival handlers => same to_delete/to_copy for every interleaving and sibling order; iteration order = reversed dest arrival / source arrival, no key twice), unbounded in tree size and schedule; model tied to boss_sync.rs by exact trace equality of the real sync() vs the model on exhaustively enumerated interleavings of small tree pairs and sampled larger ones (scripted doers, one message in flight).",
    note="Trusted: Lean kernel (+propext, Classical.choice, Quot.sound); correspondence is differential (what the tie has seen is in the evidence); parent-before-child listing order is C17's guarantee; crossbeam select.",
